@@ -190,9 +190,33 @@ func expiryShape(v ssa.Value, maxNanos int64) (bool, string) {
 	if !ok || calleeName(add) != "(time.Time).Add" {
 		return false, "expiry time is not time.Now().Add(d)"
 	}
-	now, ok := recvOf(add).(*ssa.Call)
-	if !ok || calleeName(now) != "time.Now" {
-		return false, "expiry base is not time.Now()"
+	base := recvOf(add)
+	if _, isP := strip(base).(*ssa.Parameter); isP && theCtx != nil {
+		// expiresAt(issued time.Time): every caller must hand in time.Now()
+		ups := theCtx.upValues(base, 0)
+		if len(ups) == 0 {
+			return false, "expiry base is a parameter with no resolvable call site"
+		}
+		for _, u := range ups {
+			if uc, isCall := strip(u).(*ssa.Call); !isCall || calleeName(uc) != "time.Now" {
+				return false, "expiry base is not time.Now() at every call site of the helper"
+			}
+		}
+	} else {
+		now, ok := base.(*ssa.Call)
+		if !ok || calleeName(now) != "time.Now" {
+			return false, "expiry base is not time.Now()"
+		}
+	}
+	if maxNanos <= 0 {
+		// no upper bound claimed: a positive constant, or a configured lifetime
+		if n, isC := constInt(arg(add, 0)); isC {
+			if n <= 0 {
+				return false, "lifetime is not positive"
+			}
+			return true, fmt.Sprintf("time.Now().Add(%ds)", n/1e9)
+		}
+		return true, "time.Now().Add(<configured lifetime>)"
 	}
 	d, ok := durationConstLE(arg(add, 0), maxNanos)
 	if !ok {
